@@ -417,6 +417,10 @@ func raceScripts(r *rand.Rand, n int) []raceScript {
 		raceScript{"plain", []string{"> position startpos", "> go wtime 1000 btime 1000 movestogo 9223372036854775807", "wait-bestmove 9000", "quiet 100", "sync",
 			"> go wtime 1000 btime 1000 movestogo 9223372036854775806", "wait-bestmove 9000", "quiet 100", "> go wtime 9223372036854 btime 9223372036854 movestogo 4611686018427387903", "sleep 300", "> stop",
 			"wait-bestmove 9000", "quiet 100", "sync", "alive"}, "numeric edges"},
+		raceScript{"plain", []string{"> position startpos moves d2d4", "> go wtime 9223372036854775807 btime 9223372036854775807 movestogo 1", "sleep 200", "> stop", "wait-bestmove 9000", "quiet 100",
+			"> go wtime -9223372036854775808 btime -9223372036854775808", "wait-bestmove 9000", "quiet 100", "> go movetime 9223372036854775807", "sleep 200", "> stop", "wait-bestmove 9000", "quiet 100",
+			"> go depth 9223372036854775807 movetime 150", "wait-bestmove 9000", "quiet 100", "> go depth 99999999999999999999", "sync", "> setoption name Noise value 9223372036854775807", "> setoption name Depth value -5",
+			"> position startpos", "> go movetime 150", "wait-bestmove 9000", "quiet 100", "sync", "alive"}, "numeric edges"},
 		raceScript{"plain", []string{"> setoption name Hash value -1", "> position startpos", "sync", "> setoption name Hash value 99999999999", "> position startpos moves e2e4", "sync",
 			"> setoption name Hash value 9223372036854775807", "> ucinewgame", "> position startpos", "sync", "> setoption name Hash value 1", "> position startpos", "> go depth 2", "wait-bestmove 9000", "quiet 100", "alive"}, "numeric edges"})
 	return ret
